@@ -939,6 +939,8 @@ class ParsedEvent(EDXMLEvent, etree.ElementBase):
         props = self.find('{http://edxml.org/edxml}properties')
         for existing_value in props.findall('{http://edxml.org/edxml}' + key):
             props.remove(existing_value)
+        if value is None:
+            return
         for v in value:
             try:
                 etree.SubElement(props, '{http://edxml.org/edxml}' + key).text = v
